@@ -1,7 +1,7 @@
 CONSTANTS
-  Bug = "none"
+  Bug = "san_ignore_ignored"
   Tier = "quick"
   Dev <- AllDev
 SPECIFICATION Spec
-INVARIANT WitReject
+INVARIANT Conf
 CHECK_DEADLOCK FALSE
